@@ -19,6 +19,8 @@ Families (--family NAME, default all, one copy per family):
   test-temp       if EXPR: ...               ->  cond__N = EXPR; if cond__N: ...
   wrap-else       if C: ...return; REST      ->  if C: ...return  else: REST
   unwrap-else     the reverse, for an if/else that ends a block
+  pos-to-kw       f(a, b, c) -> f(a, y=b, z=c)   for calls of module-level repository functions (resolved by unique name)
+  kw-to-pos       f(a, y=b) -> f(a, b)           where the keyword is the next parameter and the first keyword written
 Usage: tools/syntax_variants.py [--family F]... [--per-file] [--validate] [path prefixes, default proxy/]
   --validate runs the repository's stable tests on each rewritten tree first (a git worktree under /tmp, removed afterwards)"""
 import ast
@@ -265,7 +267,80 @@ class UnwrapElse(ast.NodeTransformer):
         return node
 
 
+class _CallRewriter(ast.NodeTransformer):
+    """base for the two argument-spelling families: only calls of MODULE-LEVEL functions of the repository, resolved by the name the
+    calling module imports or defines (methods are left alone: dynamic dispatch may reach an override with other parameter names)"""
+    n = 0
+    table: Dict[str, List[str]] = {}       # function name -> parameter names (unique across the repository, no *args / **kwargs / positional-only)
+
+    def params_of(self, call: ast.Call) -> Optional[List[str]]:
+        if isinstance(call.func, ast.Name) and call.func.id in self.table and not any(isinstance(a, ast.Starred) for a in call.args) and \
+                not any(k.arg is None for k in call.keywords):
+            return self.table[call.func.id]
+        return None
+
+
+class PosToKw(_CallRewriter):
+    def visit_Call(self, node: ast.Call) -> ast.AST:
+        self.generic_visit(node)
+        ps = self.params_of(node)
+        if ps is None or not node.args or len(node.args) > len(ps):
+            return node
+        # keep the first argument positional (the common style), name the others
+        keep = 1
+        if len(node.args) <= keep:
+            return node
+        type(self).n += 1
+        new_kw = [ast.keyword(arg=ps[i], value=a) for i, a in enumerate(node.args) if i >= keep]
+        return ast.Call(func=node.func, args=node.args[:keep], keywords=new_kw + node.keywords)
+
+
+class KwToPos(_CallRewriter):
+    def visit_Call(self, node: ast.Call) -> ast.AST:
+        self.generic_visit(node)
+        ps = self.params_of(node)
+        if ps is None or not node.keywords:
+            return node
+        args = list(node.args)
+        kws = {k.arg: k.value for k in node.keywords}
+        moved = 0
+        while len(args) < len(ps) and ps[len(args)] in kws:
+            # evaluation order: arguments are evaluated left to right as written; moving a keyword forward is only safe when it is the
+            # FIRST keyword written (so it was already evaluated right after the positional ones)
+            if node.keywords[moved].arg != ps[len(args)]:
+                break
+            args.append(kws.pop(ps[len(args)]))
+            moved += 1
+        if not moved:
+            return node
+        type(self).n += 1
+        return ast.Call(func=node.func, args=args, keywords=[k for k in node.keywords if k.arg in kws])
+
+
+def _module_level_functions() -> Dict[str, List[str]]:
+    """unique module-level function names of proxy/** with plain parameters"""
+    seen: Dict[str, List[List[str]]] = {}
+    for f in tracked():
+        if not f.endswith('.py'):
+            continue
+        try:
+            t = ast.parse(open(os.path.join('/repo', f), encoding='utf-8').read())
+        except SyntaxError:
+            continue
+        for s in t.body:
+            if isinstance(s, (ast.FunctionDef, ast.AsyncFunctionDef)):
+                a = s.args
+                if a.vararg or a.kwarg or a.posonlyargs or a.kwonlyargs or s.decorator_list:
+                    seen.setdefault(s.name, []).append([])
+                else:
+                    seen.setdefault(s.name, []).append([x.arg for x in a.args])
+            elif isinstance(s, ast.ClassDef):
+                seen.setdefault(s.name, []).append([])       # a class of that name: calls are constructor calls, left alone
+    return {k: v[0] for k, v in seen.items() if len(v) == 1 and v[0]}
+
+
 FAMILIES = {
+    'pos-to-kw': PosToKw, 'kw-to-pos': KwToPos,
     'not-form': NotForm, 'return-temp': ReturnTemp, 'test-temp': TestTemp, 'wrap-else': WrapElse, 'unwrap-else': UnwrapElse,
     'swap-branches': SwapBranches, 'swap-ifexp': SwapIfExp, 'nest-and': NestAnd, 'demorgan': DeMorgan,
     'flip-compare': FlipCompare, 'is-not': IsNot, 'len-zero': LenZero, 'aug-assign': AugAssign,
@@ -274,6 +349,10 @@ FAMILIES = {
 
 def rewrite(src: str, family: str) -> Tuple[str, int]:
     tree = ast.parse(src)
+    if issubclass(FAMILIES[family], _CallRewriter):
+        if not _CallRewriter.table:
+            _CallRewriter.table = _module_level_functions()
+        FAMILIES[family].n = 0
     t = FAMILIES[family]()
     new = ast.fix_missing_locations(t.visit(tree))
     if t.n == 0:
